@@ -251,6 +251,21 @@ def cases(tier):
     c.expected = {"hc_dep.h", "hc_dep2.h"}
     c.plain = False
     out.append(c)
+    # several in-memory inputs, and in-memory inputs next to real ones: a name that exists only in memory was never READ from the
+    # file system, so it may be announced as an input header but never as an included FILE or a depfile prerequisite
+    for nm, real, virt in (("header_contents-x2", [], ["virtual_a.h", "virtual_b.h"]), ("header+header_contents", ["real_in.h"], ["virtual_a.h"]),
+                           ("header+header_contents-x2", ["real_in.h"], ["virtual_a.h", "virtual_b.h"])):
+        c = Case(nm)
+        c.files["hc_dep.h"] = "#pragma once\ntypedef int hc_dep_t;\n"
+        c.files["decoy.h"] = "typedef int decoy_t;\n"
+        for r in real:
+            c.files[r] = "typedef long real_in_t;\n"
+        c.inputs = list(real)
+        c.contents_list = [("@D@/" + v, (f'#include "hc_dep.h"\nhc_dep_t f_{k}(void);\n' if k == 0 else f"int g_{k}(void);\n")) for k, v in enumerate(virt)]
+        c.contents = c.contents_list[-1]
+        c.expected = {"hc_dep.h"} | set(real)
+        c.plain = False
+        out.append(c)
     return out
 
 
@@ -324,9 +339,11 @@ def run(ck, only=None):
                    "ops": [["header", os.path.join(d, h)] for h in c.inputs] + [["depfile", os.path.join(d, "out.rs"), os.path.join(d, "dep.d")]],
                    "clang_args": cargs}
         if c.contents:
-            job["header_contents"] = [[c.contents[0].replace("@D@", d), c.contents[1]]]
-            job.pop("args")
-            job["ops"] = [["depfile", os.path.join(d, "out.rs"), os.path.join(d, "dep.d")]]
+            lst = getattr(c, "contents_list", None) or [c.contents]
+            job["header_contents"] = [[n.replace("@D@", d), t] for n, t in lst]
+            job.pop("args", None)
+            job["mode"] = "gen_ops"
+            job["ops"] = [["header", os.path.join(d, h)] for h in c.inputs] + [["depfile", os.path.join(d, "out.rs"), os.path.join(d, "dep.d")]]
             job["clang_args"] = cargs + ["-I", d]
         if c.no_callbacks:
             job.pop("callbacks", None)
@@ -377,7 +394,12 @@ def run(ck, only=None):
         hdrs = [l.split(" ", 1)[1] for l in cb_log if l.startswith("header_file ")]
         incs = [l.split(" ", 1)[1] for l in cb_log if l.startswith("include_file ")]
         cbset = {rel(p) for p in hdrs + incs}
-        virt = {rel(c.contents[0].replace("@D@", d))} if c.contents else set()
+        virt = {rel(n.replace("@D@", d)) for n, _ in (getattr(c, "contents_list", None) or [c.contents])} if c.contents else set()
+        # an in-memory input may be announced as an input header; as an included file or a prerequisite it names something that
+        # was never read (make: "No rule to make target")
+        virt_inc = {rel(p) for p in incs} & virt if c.contents else set()
+        if virt_inc:
+            ck.violation(cid + " in-memory-input-reported-as-included-file", dict(det, why=f"include_file notifications name in-memory inputs that do not exist on disk: {sorted(virt_inc)}"))
         missing = exp - cbset if not c.no_callbacks else set()
         extra = cbset - exp - virt
         if missing:
